@@ -60,6 +60,17 @@ def part_auth(ctx: Ctx, out: Outcome, rng: random.Random) -> dict:
     for inv in design.violated:
         out.violations.append(Violation("C14:design:AuthCache:" + inv, "AuthCache.tla violates " + inv,
                                         {"kind": "design", "trace": design.counterexample[:80]}))
+    # design exploration: one refresh lock per cache key, created lazily (AuthCacheKeyed.tla).  The atomic creation must hold, the
+    # check-then-act creation must be refuted, and the parallelism the design is for must be reachable (vacuity guard)
+    keyed_design = tlc.require_ok(tlc.run_tlc("AuthCacheKeyed", "AuthCacheKeyed_atomic.cfg", timeout=1800), "AuthCacheKeyed atomic")
+    for inv in keyed_design.violated:
+        out.violations.append(Violation("C14:design:AuthCacheKeyed:" + inv, "AuthCacheKeyed.tla (atomic lock creation) violates " + inv,
+                                        {"kind": "design", "trace": keyed_design.counterexample[:80]}))
+    for cfg, inv in (("AuthCacheKeyed_racy.cfg", "FetchOnce"), ("AuthCacheKeyed_overlap.cfg", "NoOverlap")):
+        res = tlc.require_ok(tlc.run_tlc("AuthCacheKeyed", cfg, timeout=600), cfg)
+        if inv not in res.violated:
+            raise tlc.TLCFailure("%s: TLC must reach a violation of %s (refuted design / reachability witness)" % (cfg, inv))
+    cov.update(keyed_design_states=keyed_design.distinct)
     items: list[dict] = []
     # attack schedules: what TLC finds without the in-lock re-check; the real code re-reads after acquiring, so a "reread" token
     # is inserted after every acquire - correct code then refuses to follow the rest (no second fetch), defective code follows it
